@@ -35,7 +35,12 @@ fn('emmet.css_matcher.scan:literal', props=P,
    params={'scanner': 'Scanner'}, returns='bool|None',
    requires=['wf(scanner)'],
    ensures=CONSUMER + ['implies(not result, scanner.pos == old(scanner.pos) and scanner.start == old(scanner.start))',
-                       'implies(result, scanner.pos > old(scanner.pos) and scanner.start == old(scanner.pos))'],
+                       'implies(result, scanner.pos > old(scanner.pos) and scanner.start == old(scanner.pos))',
+                       # C10: a string is closed by the quote that opened it (the other kind of quote inside it does
+                       # not end it), by a line break, or by the end of the input
+                       'implies(result, is_quote(scanner.string[old(scanner.pos)]) and (scanner.pos == scanner.end or '
+                       '        (scanner.pos >= old(scanner.pos) + 2 and scanner.string[scanner.pos - 1] == scanner.string[old(scanner.pos)]) or '
+                       "        scanner.string[scanner.pos - 1] == '\\n' or scanner.string[scanner.pos - 1] == '\\r'))"],
    modifies=['scanner.pos', 'scanner.start'],
    loops={0: {'anchor': 'while not scanner.eof()',
               'invariant': ['old(scanner.pos) < scanner.pos', 'scanner.pos <= scanner.end',
